@@ -393,4 +393,13 @@ def make_op(W, name, tag):
         L('begin')
         await victim()
         L('end')
-    return wrapped, drivers
+
+    def safe(drv):
+        # a world driver that finds its stream closed by another op's driver just stops
+        async def run():
+            try:
+                await drv()
+            except StreamClosed:
+                L('driver-closed')
+        return run
+    return wrapped, [safe(d) for d in drivers]
